@@ -242,6 +242,16 @@ func (u *controlUnit) shouldUseForwarding(runner *risc.InstructionRunnerPc, haza
 		}
 	}
 	if candidate != nil {
+		// A renamed instruction pushed in the current cycle may write the same
+		// register: it is younger than the candidate and older than the runner,
+		// so the candidate's value is not the one the runner must read.
+		for currentRunner := range u.pushedRunnersInCurrentCycle {
+			for _, writeRegister := range currentRunner.Runner.WriteRegisters() {
+				if writeRegister == candidateRegister {
+					return false, nil, risc.Zero
+				}
+			}
+		}
 		return true, candidate, candidateRegister
 	}
 	return false, nil, risc.Zero
